@@ -306,10 +306,27 @@ class PausableMixin:
 
 class SubscribableMixin:
     def subscribe(self, function, event_type=None, run=True, **kwargs):
-        self._enter("subscribe", cb=_cbname(function))
+        opts = {"event_type": event_type, "run": run, **kwargs}
+        self._enter("subscribe", cb=_cbname(function), opts={k: v for k, v in sorted(opts.items()) if not (k == "event_type" and v is None) and not (k == "run" and v is True)})
         self.subs.append(function)
         if run:
-            self._notify_one(function)
+            try:
+                self._notify_one(function)
+            except DeviceFault as e:
+                if ".get#" not in str(e):
+                    raise
+                self.sim.record("sub_error", sig=self.name, cb=_cbname(function), exc=type(e).__name__)
+            except RuntimeError as e:
+                # a suspender shown a suspending value from inside the event-loop thread cannot create its bridge
+                # event there ("Could not create the "): the control-system layer (ophyd wraps every callback) logs
+                # that and goes on - the suspender stays installed and tripped
+                if not (hasattr(function, "_should_suspend") and "Could not create" in str(e)):
+                    raise
+                self.sim.record("sub_error", sig=self.name, cb=_cbname(function), exc=type(e).__name__)
+            if hasattr(function, "_should_suspend") and hasattr(function, "tripped"):
+                # what a suspender made of the value it was shown on installation (its own record kind: the
+                # predicate properties keep looking at updates only)
+                self.sim.record("sus_install", sig=self.name, value=self._value, tripped=bool(function.tripped), has_ev=function._ev is not None)
         return len(self.subs)
 
     def clear_sub(self, function, event_type=None):
@@ -325,7 +342,14 @@ class SubscribableMixin:
         self._value = value
         self._log("put", value=value, nsubs=len(self.subs))
         for f in list(self.subs):
-            self._notify_one(f)
+            try:
+                self._notify_one(f)
+            except DeviceFault as e:
+                # the control-system layer logs a failing subscriber and goes on (as ophyd does); only the
+                # injected failure of this signal's own get() is treated that way, anything else propagates
+                if ".get#" not in str(e):
+                    raise
+                self.sim.record("sub_error", sig=self.name, cb=_cbname(f), exc=type(e).__name__)
             if hasattr(f, "_should_suspend") and hasattr(f, "tripped"):
                 # observation point for the suspender properties: state after this value
                 self.sim.record(
@@ -341,6 +365,8 @@ class SubscribableMixin:
                 )
 
     def get(self):
+        if self.faults or self.sticky:
+            self._enter("get")  # (only signals with scheduled faults log their get() calls: histories of all others are unchanged)
         return self._value
 
     @property
